@@ -273,6 +273,8 @@ def forward_cse(rng, n, out):
                 out["failures"].append({"unit": "sympy_to_casadi", "class": "cse_raises", "input": {"expr": str(t), "preexisting_x0": pre}, "expected": "conversion", "observed": "%s: %s" % (type(ex).__name__, str(ex)[:200]), "what": "conversion with cse=True raised on a supported expression"})
                 break
             names = sorted(tab_plain.keys())
+            if not names:
+                break
             if sorted(tab_cse.keys()) != names:
                 out["failures"].append({"unit": "sympy_to_casadi", "class": "cse_symbol_table", "input": {"expr": str(t), "preexisting_x0": pre}, "expected": names, "observed": sorted(tab_cse.keys()), "what": "cse=True returns a different symbol table"})
                 break
@@ -310,7 +312,9 @@ def backward(rng, n, out):
     def gen(depth):
         if depth <= 0 or rng.random() < 0.25:
             return [x, y, ca.SX(float(rng.choice([2.0, -0.5, 1.25, 3.0])))][int(rng.integers(0, 3))]
-        op = rng.choice(["add", "sub", "mul", "div", "neg", "sq", "sqrt", "sin", "cos", "atan", "ifelse", "fmin", "fmax", "lt", "fabs", "pow", "twice", "fmod", "remainder", "eq"])
+        op = rng.choice(["add", "sub", "mul", "div", "neg", "sq", "sqrt", "sin", "cos", "atan", "ifelse", "fmin", "fmax", "lt", "fabs", "pow", "twice", "fmod", "remainder", "eq",
+                         "exp", "log", "tan", "asin", "acos", "ne", "not", "and", "or", "floor", "ceil", "sign", "copysign", "inv", "sinh", "cosh", "tanh",
+                         "asinh", "acosh", "atanh", "atan2", "erf", "gt", "ge"])
         stats["ops"][op] = stats["ops"].get(op, 0) + 1
         a, b = gen(depth - 1), gen(depth - 1)
         if op == "add": return a + b
@@ -333,6 +337,30 @@ def backward(rng, n, out):
         if op == "fmod": return ca.fmod(a, b * b + 0.5)
         if op == "remainder": return ca.remainder(a, b * b + 0.5)
         if op == "eq": return ca.if_else(a == b, 1.0, 2.0)
+        if op == "exp": return ca.exp(ca.sin(a))
+        if op == "log": return ca.log(a * a + 0.5)
+        if op == "tan": return ca.tan(ca.atan(a) * 0.9)
+        if op == "asin": return ca.asin(a / (1 + ca.fabs(a)) * 0.95)
+        if op == "acos": return ca.acos(a / (1 + ca.fabs(a)) * 0.95)
+        if op == "ne": return ca.if_else(a != b, 1.0, 2.0)
+        if op == "not": return ca.if_else(ca.logic_not(a < b), 1.0, 3.0)
+        if op == "and": return ca.if_else(ca.logic_and(a < b, b < 1), 1.0, 3.0)
+        if op == "or": return ca.if_else(ca.logic_or(a < b, b < -1), 1.0, 3.0)
+        if op == "floor": return ca.floor(a)
+        if op == "ceil": return ca.ceil(a)
+        if op == "sign": return ca.sign(a)
+        if op == "copysign": return ca.copysign(a, b)
+        if op == "inv": return 1 / (a * a + 0.5)
+        if op == "sinh": return ca.sinh(ca.sin(a))
+        if op == "cosh": return ca.cosh(ca.sin(a))
+        if op == "tanh": return ca.tanh(a)
+        if op == "asinh": return ca.asinh(a)
+        if op == "acosh": return ca.acosh(a * a + 1.5)
+        if op == "atanh": return ca.atanh(a / (1 + ca.fabs(a)) * 0.95)
+        if op == "atan2": return ca.atan2(a, b)
+        if op == "erf": return ca.erf(a)
+        if op == "gt": return ca.if_else(a > b, 1.5, -2.5)
+        if op == "ge": return ca.if_else(a >= b, 1.5, -2.5)
     for i in range(n):
         mat = (i % 4 == 3)
         if mat:
